@@ -990,6 +990,50 @@ def binary_checks():
   chk('Dict.__ror__', mkd, lambda x: {'a': 5, 'n': {'m': 1}} | x, md, md)
   return hits
 
+def iterable_sweep():
+  """The argument of extend / += / slice assignment / update / |= given as every kind of iterable Python accepts there."""
+  P = D.pg()
+  hits = []
+  n = 0
+  vals = [7, {'k': 1}, [8]]
+  kinds = {'list': lambda v: list(v), 'tuple': lambda v: tuple(v), 'generator': lambda v: (x for x in v), 'iterator': lambda v: iter(list(v)),
+           'pg.List': lambda v: P.List(copy.deepcopy(list(v))), 'dict-keys': None, 'range': None}
+  lops = {'List.extend': lambda l, a: l.extend(a), 'List.__iadd__': lambda l, a: l.__iadd__(a),
+          'List.__setitem__(slice)/step=1': lambda l, a: l.__setitem__(slice(1, 2), a), 'List.__setitem__(slice)/step>1': lambda l, a: l.__setitem__(slice(0, None, 2), a),
+          'List.__setitem__(slice)/step<0': lambda l, a: l.__setitem__(slice(None, None, -1), a), 'List.__setitem__(slice)/empty': lambda l, a: l.__setitem__(slice(2, 1), a)}
+  for name, f in lops.items():
+    base = [0, {'a': 1}, 2] if 'step' not in name or 'step=1' in name else ([0, {'a': 1}, 2, 3, 4] if 'step>1' in name else [0, {'a': 1}, 2])
+    for kname, mk in kinds.items():
+      if mk is None:
+        if kname == 'range': arg_of = lambda: range(3)
+        else: arg_of = lambda: {5: 0, 6: 0, 9: 0}.keys()
+      else:
+        arg_of = lambda mk=mk: mk(copy.deepcopy(vals))
+      n += 1
+      def run(ctor):
+        l = ctor(copy.deepcopy(base)); f(l, arg_of()); return plain(l)
+      x, y = outcome_of(lambda: run(P.List)), outcome_of(lambda: run(list))
+      if x[0] != y[0] or (x[0] == 'err' and x[1] != y[1]) or (x[0] == 'ok' and not same(x[1], y[1])):
+        clause = 'error-class' if x[0] != y[0] or x[0] == 'err' else 'contents'
+        hits.append(('C02/%s/%s/argument-%s' % (clause, name.split('/')[0], kname), '%s on %r with a %s: symbolic %r, plain %r' % (name, base, kname, x, y),
+                     dict(kind='iterable-sweep')))
+  dkinds = {'dict': lambda: {'a': 5, 'n': {'m': 1}}, 'pairs': lambda: [('a', 5), ('n', {'m': 1})], 'pair-generator': lambda: ((k, v) for k, v in [('a', 5), ('n', [1])]),
+            'pg.Dict': lambda: P.Dict(a=5, n={'m': 1}), 'kwargs': None}
+  dops = {'Dict.update': lambda d, a: d.update(a), 'Dict.__ior__': lambda d, a: d.__ior__(a)}
+  for name, f in dops.items():
+    for kname, mk in dkinds.items():
+      n += 1
+      def run(ctor):
+        d = ctor({'a': 1, 'b': {'c': 2}})
+        if mk is None: d.update(a=5, n={'m': 1})
+        else: f(d, mk())
+        return plain(d)
+      x, y = outcome_of(lambda: run(P.Dict)), outcome_of(lambda: run(dict))
+      if x[0] != y[0] or (x[0] == 'err' and x[1] != y[1]) or (x[0] == 'ok' and not same(x[1], y[1])):
+        clause = 'error-class' if x[0] != y[0] or x[0] == 'err' else 'contents'
+        hits.append(('C02/%s/%s/argument-%s' % (clause, name, kname), '%s with a %s: symbolic %r, plain %r' % (name, kname, x, y), dict(kind='iterable-sweep')))
+  return hits, n
+
 def update_sweep():
   """Dict.update / |= / | / setdefault / item assignment with every kind of key on every kind of dict, against dict."""
   P = D.pg()
@@ -1113,6 +1157,9 @@ def run(ctx):
     if out is not None:
       for (sc_, op, _), (res, snap, rb) in zip(case[3], out[1]):
         ctx.hist('operations', op_name(op[0]))
+        ctx.hist('target_depth', len(op[1][1]))
+        if rb and rb[0] in (0, 1) and isinstance(rb[1], int):
+          ctx.hist('target_size_after', min(rb[1], 12))
         ctx.hist('outcomes', 'ok' if res[0] == 0 else {1: 'WritePermissionError', 2: 'KeyError', 3: 'IndexError', 4: 'TypeError', 5: 'ValueError',
                                                         6: 'AssertionError', 7: 'AttributeError', 9: 'other', 97: 'hang', 99: 'not-applicable'}.get(res[1], res[1]))
         if op[0] in (LSETSLICE, LDELSLICE):
@@ -1145,6 +1192,10 @@ def run(ctx):
   for sig, what, case in uh:
     ctx.hit(sig, what, case)
   ctx.extra['update_sweep'] = dict(cases=un, differing=len(uh))
+  ih, inn = iterable_sweep()
+  for sig, what, case in ih:
+    ctx.hit(sig, what, case)
+  ctx.extra['iterable_sweep'] = dict(cases=inn, differing=len(ih))
   ctx.log('sweeps on pg.List / pg.Dict in %.1fs' % (time.time() - t2))
   # ---- violation search when something is broken and the oracle has not hit yet
   if ctx.is_broken() and not ctx.hits:
@@ -1168,6 +1219,10 @@ def replay(ctx, rp):
     return h is None
   if isinstance(c, dict) and c.get('kind') == 'binary-checks':
     hs = binary_checks()
+    for h in hs: print('  still fails:', h[0], '|', h[1])
+    return not hs
+  if isinstance(c, dict) and c.get('kind') == 'iterable-sweep':
+    hs, _ = iterable_sweep()
     for h in hs: print('  still fails:', h[0], '|', h[1])
     return not hs
   if isinstance(c, dict) and c.get('kind') == 'update-sweep':
